@@ -44,6 +44,7 @@ type Knobs struct {
 	FaultRate     int      `json:"fault_rate,omitempty"`
 	FaultKinds    []string `json:"fault_kinds,omitempty"`
 	Torn          bool     `json:"torn,omitempty"`
+	Lives         int      `json:"lives,omitempty"` // crash engine: 2 = the history goes on after one of its crash points (crash, recovery, work, crash)
 }
 
 func defaultKnobs() Knobs {
